@@ -26,7 +26,8 @@ SING_MP = mpf(10) ** -24
 SING_F64 = mpf(10) ** -6
 _PI = mpmath.pi
 SQRT_LIKE = {"tau": (0,), "abs": (0,), "Mt": (0,), "Et": (0,), "rho": (0,), "mag": (0,), "deltaR": (0,),
-             "deltaRapidityPhi": (0,), "deltaangle": (0, _PI), "theta": (0, _PI), "beta": (1, -1)}
+             "deltaRapidityPhi": (0,), "deltaangle": (0, _PI), "theta": (0, _PI), "beta": (1, -1),
+             "np_sqrt": (0,), "np_cbrt": (0,)}
 
 
 # --------------------------------------------------------------------------- params
@@ -72,6 +73,15 @@ def call_op(case, A, B, number, large_angles=True):
         return getattr(A, op)
     if op == "abs":
         return abs(A)
+    if op == "np_sqrt":
+        import numpy as _np
+        return _np.sqrt(A)
+    if op == "np_cbrt":
+        import numpy as _np
+        return _np.cbrt(A)
+    if op == "np_power":
+        import numpy as _np
+        return _np.power(A, number(rat(p[0])))
     if op == "square":
         return A ** 2
     if op == "neg":
@@ -81,7 +91,10 @@ def call_op(case, A, B, number, large_angles=True):
     if op == "to_beta3":
         return A.to_beta3()
     if op == "scale":
-        return A.scale(number(rat(p[0])))
+        f = number(rat(p[0]))
+        return (A.scale(f), A * f, f * A)[hk % 3]
+    if op == "divide":
+        return A / number(rat(p[0]))
     if op in ("rotateZ", "rotateX", "rotateY"):
         return getattr(A, op)(number(angle_of(p[0], k)))
     if op == "rotate_euler":
@@ -120,7 +133,7 @@ BINARY = {"add", "subtract", "cross", "dot", "deltaphi", "deltaangle", "deltaeta
           "deltaRapidityPhi", "deltaRapidityPhi2", "boost_p4", "boost_beta3", "boostCM_of_p4",
           "boostCM_of_beta3", "boost", "boostCM_of"}
 ANGLE_VALUED = {"phi", "deltaphi"}
-NAN_AT_BRANCH = {"Mt"}
+NAN_AT_BRANCH = {"Mt", "np_sqrt", "np_cbrt"}
 # operations whose value on the 2-D/3-D part does not involve the stored higher
 # coordinates: running them in every longitudinal/temporal storage is redundant, so the
 # quick tier samples signatures for them
@@ -160,6 +173,8 @@ def param_scale(case):
     s = mpf(1)
     if op == "scale":
         s = 1 + abs(rat(p[0]))
+    elif op == "divide":
+        s = 1 + 1 / abs(rat(p[0]))
     elif op.startswith("transform"):
         s = 1 + max(abs(rat(c)) for row in p[0] for c in row) * len(p[0])
     elif op.endswith("_beta"):
@@ -200,7 +215,7 @@ def expected_of(case):
 
 
 def result_kind(op):
-    if op in UNARY_PROPS or op in ("abs", "square", "dot", "deltaphi", "deltaangle", "deltaeta", "deltaR",
+    if op in UNARY_PROPS or op in ("abs", "square", "np_sqrt", "np_cbrt", "np_power", "dot", "deltaphi", "deltaangle", "deltaeta", "deltaR",
                                    "deltaR2", "deltaRapidityPhi", "deltaRapidityPhi2"):
         return "num"
     if op.startswith("is_"):
@@ -292,7 +307,7 @@ def run_case(case, classes, number, tier, mode, tol):
     scale = (1 + maxabs(va)) * (1 + (maxabs(vb) if vb else 0)) * param_scale(case)
     if vb is not None:
         scale *= boost_scale(case, vb)
-    if rk == "num" and op in ("dot", "rho2", "mag2", "t2", "tau2", "Et2", "Mt2", "square"):
+    if rk == "num" and op in ("dot", "rho2", "mag2", "t2", "tau2", "Et2", "Mt2", "square", "np_power"):
         scale = scale * scale
     if kind == "vec":
         scale = max(scale, 1 + maxabs(exp))
